@@ -78,3 +78,6 @@ Definition adiff (c : acase) : float :=
     fmax acc (fmax (mdiff Qm Qi) (mdiff (aH s) H / scale))) (combine (snd r) (a_out c)) 0.
 Definition amaxdiff_agreeing (cs : list acase) : float :=
   fold_left (fun acc c => if Nat.eqb (acheck c) 0 then fmax acc (adiff c) else acc) cs 0.
+
+(* the case as seen by the repaired variant arnoldi_batch_capped (= arnoldi_batch with max_iters capped at n, C15_Model.v) *)
+Definition cap_case (c : acase) : acase := mk_acase (a_n c) (a_A c) (a_vs c) (Nat.min (a_mi c) (a_n c)) (a_tol c) (a_out c).
